@@ -104,18 +104,21 @@ def proof_check(pid, gen_theorems=()):
         m = re.findall(r'File "([^"]+)", line (\d+)[^\n]*\n(?:[^\n]*\n){0,6}?Error:[^\n]*(?:\n[^\n]*){0,3}', log)
         res["problems"].append("coq build failed: " + log[-1500:])
         res["broken_file"] = m[0][0] if m else None
-    prop = os.path.join(COQ, "theories", "Properties", pid + ".v")
-    src = open(prop).read()
-    thms = re.findall(r"^\s*(?:Theorem|Lemma|Example|Corollary)\s+([A-Za-z0-9_']+)", src, re.M)
-    res["theorems"] = thms
-    res["obligations"] = len(thms)
-    if ok:
+    import glob
+    props = sorted(glob.glob(os.path.join(COQ, "theories", "Properties", pid + "*.v")))
+    for prop in props:
+        src = open(prop).read()
+        thms = re.findall(r"^\s*(?:Theorem|Lemma|Example|Corollary)\s+([A-Za-z0-9_']+)", src, re.M)
+        res["theorems"] += thms
+        res["obligations"] += len(thms)
+        if not ok:
+            continue
         with Lock("coq"):
-            p = sh("timeout 1200 coqc -Q theories RRTK -w -all theories/Properties/%s.v" % pid, cwd=COQ, check=False, timeout=1300)
+            p = sh("timeout 1200 coqc -Q theories RRTK -w -all theories/Properties/%s" % os.path.basename(prop), cwd=COQ, check=False, timeout=1300)
         out = p.stdout
         if p.returncode != 0:
             res["ok"] = False
-            res["problems"].append("Properties/%s.v does not compile: %s" % (pid, out[-1500:]))
+            res["problems"].append("Properties/%s does not compile: %s" % (os.path.basename(prop), out[-1500:]))
         else:
             n_out, used = parse_assumptions(out)
             res["axioms"] |= used
@@ -123,9 +126,10 @@ def proof_check(pid, gen_theorems=()):
             if bad:
                 res["ok"] = False
                 res["problems"].append("axioms outside the allow-list: " + ", ".join(bad))
-            res["discharged"] = min(len(thms), n_out) if not bad else 0
+            else:
+                res["discharged"] += min(len(thms), n_out)
             if n_out < len(thms):
-                res["problems"].append("fewer Print Assumptions outputs (%d) than statements (%d)" % (n_out, len(thms)))
+                res["problems"].append("fewer Print Assumptions outputs (%d) than statements (%d) in %s" % (n_out, len(thms), os.path.basename(prop)))
                 res["ok"] = False
     for g in gen_theorems:
         gsrc = open(os.path.join(COQ, "gen_theorems", g + ".v")).read()
@@ -547,3 +551,68 @@ def main_args():
     a = ap.parse_args()
     seed = int(os.environ.get("VERIF_SEED", "20260929"))
     return a.pid, a.tier, seed, a.replay
+
+
+# ----------------------------------------------------------------------------- stream case helpers
+def oNone(): return [0]
+def oErr(e): return [1, e]
+def oSome(t, payload): return [2, t] + list(payload)
+def tErr(e): return [1, e]
+def tOk(t): return [3, t]
+
+def dec_out_py(l, pos, width):
+    """decode an out value with a payload of `width` integers -> (('N',)|('E',e)|('S',t,payload), newpos)"""
+    tag = l[pos]
+    if tag == 0: return ("N",), pos + 1
+    if tag == 1: return ("E", l[pos + 1]), pos + 2
+    if tag == 2: return ("S", l[pos + 1], tuple(l[pos + 2:pos + 2 + width])), pos + 2 + width
+    if tag == 99: return ("P",), pos + 1
+    return ("?", tag), pos + 1
+
+def frac_to_f32_bits(x):
+    """exact rational -> nearest binary32 (ties to even), as a bit pattern; overflow -> infinity"""
+    from fractions import Fraction
+    if x == 0:
+        return 0
+    sign = 0x80000000 if x < 0 else 0
+    x = abs(Fraction(x))
+    # find e with 2^e <= x < 2^(e+1)
+    e = x.numerator.bit_length() - x.denominator.bit_length()
+    if Fraction(2) ** e > x: e -= 1
+    if Fraction(2) ** (e + 1) <= x: e += 1
+    if e < -126:
+        q = x / Fraction(2) ** (-149)          # subnormal: multiples of 2^-149
+        m = q.numerator // q.denominator
+        rem = q - m
+        if rem > Fraction(1, 2) or (rem == Fraction(1, 2) and m % 2 == 1): m += 1
+        return sign | m                         # m == 2^23 becomes the smallest normal, correctly
+    q = x / Fraction(2) ** (e - 23)             # in [2^23, 2^24)
+    m = q.numerator // q.denominator
+    rem = q - m
+    if rem > Fraction(1, 2) or (rem == Fraction(1, 2) and m % 2 == 1): m += 1
+    if m == 1 << 24:
+        m >>= 1; e += 1
+    if e > 127:
+        return sign | 0x7F800000
+    return sign | ((e + 127) << 23) | (m - (1 << 23))
+
+def f32_of_int_bits(n):
+    return frac_to_f32_bits(n)
+
+def f32_div_bits(a, b):
+    """correctly rounded a/b for finite non-zero b (bit patterns)"""
+    from fractions import Fraction
+    fa, fb = b2frac(a), b2frac(b)
+    if fa is None or fb is None or fb == 0:
+        return None
+    if fa == 0:
+        return (a ^ b) & 0x80000000
+    return frac_to_f32_bits(fa / fb)
+
+def f32_sub_bits(a, b):
+    fa, fb = b2frac(a), b2frac(b)
+    if fa is None or fb is None: return None
+    r = fa - fb
+    if r == 0:
+        return 0x80000000 if (a >> 31) == 1 and (b >> 31) == 0 else 0
+    return frac_to_f32_bits(r)
